@@ -54,8 +54,14 @@ def generate(rng, tier, shard, nshards):
                 if rng.random() < 0.12:
                     # DS9's "this region may not be rotated / moved in the GUI" flags are metadata, not geometry
                     region['meta'] = dict(region.get('meta') or {}, rotate=0, move=0, fixed=1)
-            yield {'lane': 'rotate:' + region['cls'], 'region': region, 'pivot': rng.choice(['centre', 'origin', 'far', 'random']),
-                   'angle': gen.angle_spec(rng),
+            if region['cls'] == 'TextPixelRegion' and rng.random() < 0.6:
+                region['visual'] = dict(region.get('visual') or {}, rotation=rng.choice([30.0, 0.0, -45.0]), fontsize=12)      # as parsed from DS9 textangle=
+            elif rng.random() < 0.2:
+                region['visual'] = gen.rich_visual(rng)
+            tiny = rng.random() < 0.06
+            yield {'lane': 'rotate:' + region['cls'], 'region': region, 'pivot': 'very-far' if tiny else rng.choice(['centre', 'origin', 'far', 'random']),
+                   # angles so small that cos(angle) rounds to 1 while sin(angle) does not vanish, about a pivot millions of pixels away
+                   'angle': S.q(rng.choice([-1, 1]) * gen.logu(rng, 1e-9, 1.4e-8), 'rad') if tiny else gen.angle_spec(rng),
                    'q': {'kind': rng.choice(['bbox', 'boundary', 'mixed']), 'form': '1d', 'shape': None, 'dtype': 'float64',
                          'n': rng.choice([33, 120]), 'rs': rng.randrange(2 ** 31)}, 'rs': rng.randrange(2 ** 31)}
         elif rng.random() < 0.2:
@@ -164,8 +170,11 @@ def run_case(case, obs):
         region = S.build(case['region'])
         fp0 = S.fingerprint(region)
         cx, cy, L = c01.region_scale(region)
-        pv = {'centre': (cx, cy), 'origin': (0.0, 0.0), 'far': (cx + 1e3 * L, cy - 1e3 * L),
+        D = max(2.0 ** 30, 1e8 * L)
+        pv = {'centre': (cx, cy), 'origin': (0.0, 0.0), 'far': (cx + 1e3 * L, cy - 1e3 * L), 'very-far': (cx + D, cy - 0.5 * D),
               'random': (cx + prng.uniform(-3, 3) * L, cy + prng.uniform(-3, 3) * L)}[case['pivot']]
+        if case['pivot'] == 'very-far':
+            obs.count('tiny-angle-about-a-very-far-pivot')
         A = S.build(case['angle'])
         th = float(A.to_value(u.rad))
         pivot = PixCoord(*pv)
